@@ -323,13 +323,30 @@ class Body:
     def normal_blocks(self):
         return [i for i, b in enumerate(self.blocks) if not b["cleanup"]]
 
+    def _flag_locals(self):
+        """Locals every definition of which is a constant bool (`matches!(..)`, `let mut found = false; .. found = true`):
+        the switch on such a flag is correlated with the path that set it."""
+        if getattr(self, "_flags", None) is None:
+            out = []
+            for l, ds in self.defs().items():
+                if l == 0 or len(ds) < 2:
+                    continue
+                if all(d[0] == "assign" and "use" in d[3] and "const" in d[3]["use"] and "bool" in d[3]["use"]["const"] for d in ds) \
+                        and not any(fw[2]["l"] == l for fw in self.field_writes):
+                    out.append(l)
+            self._flags = out
+        return self._flags
+
+    def _has_corr(self):
+        return bool(self.j.get("corr")) or bool(self._flag_locals())
+
     def _corr_tables(self):
         """For inlined helpers: (block -> (ret_local, 'Ok'|'Err')) for definitions of the helper's return place, and
         (switch block -> (ret_local, {edge label: 'Ok'|'Err'})) for the anchor's test of that Result."""
         if self._corr is not None:
             return self._corr
         defs_tag, sw_tag = {}, {}
-        for c in self.j.get("corr", []):
+        for c in list(self.j.get("corr", [])) + [{"ret": l, "dest": l} for l in self._flag_locals()]:
             ret, dest = c["ret"], c["dest"]
             for d in self.defs().get(ret, []):
                 tag = None
@@ -389,7 +406,7 @@ class Body:
         removed_blocks = set(removed_blocks)
         removed_edges = set(removed_edges)
         starts = [start] if isinstance(start, int) else list(start)
-        if self.j.get("corr"):
+        if self._has_corr():
             return self._reachable_corr(starts, removed_blocks, removed_edges)
         seen = set()
         dq = deque(s for s in starts if s not in removed_blocks)
@@ -438,7 +455,7 @@ class Body:
             starts.append(t)
         if not starts:
             return set()
-        if self.j.get("corr") and bb in self._corr_tables()[0]:
+        if self._has_corr() and bb in self._corr_tables()[0]:
             # keep the constructor knowledge established in bb itself
             defs_tag, sw_tag = self._corr_tables()
             tag = defs_tag[bb] if defs_tag[bb][1] is not None else None
